@@ -47,6 +47,8 @@ R.contract(f'{TS}.__init__',
              C("forall('Inst', lambda i: implies(i in tasks, (Inst_to_Task(i) in self.ALL) and (i in INSTS(self)[Inst_to_Task(i)])))", 'every requested instance is planned and tracked', serves=('C01', 'C03', 'C10')),
              C("forall('Task','Task', lambda t, d: implies((t in self.ALL) and (not ucache(t)) and (d in deps(t)), d in DD(self)[t]))", 'every dependency of a task that will execute is an edge', serves=('C02', 'C01')),
              C("forall('Task','Task', lambda t, d: implies(d in DD(self)[t], not ucache(t)))", 'tasks served from the cache have no edges', serves=('C03',)),
+             C("forall('Inst','Inst', lambda j, i: implies((j in self.processed_task_ids) and (not ucache(Inst_to_Task(j))) and (i in depinsts(j)), (i in self.processed_task_ids) and (i in INSTS(self)[Inst_to_Task(i)])))",
+               'every task object inside the parameters of a planned, non-cached task object is tracked (and will be marked)', serves=('C03',)),
              ],
     raises={},
     frame=['self.*'])
